@@ -1306,7 +1306,7 @@ class FunctionLowerer:
 
     def std_call(self, n, name, args):
         q = self.T.qt(n["type"])
-        if name in ("all_of", "any_of", "none_of", "find_if", "find_if_not", "count_if"):
+        if name in ("all_of", "any_of", "none_of", "find_if", "find_if_not", "count_if", "remove_if"):
             return self.algo_pred(n, name, args)
         if name in ("stod", "stoi", "stoul", "stol"):
             self.note_call("std::" + name)
@@ -1392,6 +1392,8 @@ class FunctionLowerer:
                 rt, body = "bool", "for (; first.i != last.i; ++first.i)\n    %s\n    { if (%s) return 0; }\n    return 1;" % (lc, callp)
             elif name == "find_if":
                 rt, body = itct, "for (; first.i != last.i; ++first.i)\n    %s\n    { if (%s) return first; }\n    return last;" % (lc, callp)
+            elif name == "remove_if":
+                rt, body = itct, ("%s out = first;\n    for (; first.i != last.i; ++first.i)\n    %s\n    { if (!%s) { VIT_DEREF(out) = VIT_DEREF(first); ++out.i; } }\n    return out;" % (itct, lc, callp))
             elif name == "find_if_not":
                 rt, body = itct, "for (; first.i != last.i; ++first.i)\n    %s\n    { if (!%s) return first; }\n    return last;" % (lc, callp)
             else:
